@@ -149,7 +149,18 @@ where
     pub fn new(target: D, proposal: Q, initial_states: Vec<Vec<S>>) -> Self {
         let chains = initial_states
             .into_iter()
-            .map(|s| MHMarkovChain::new(target.clone(), proposal.clone(), s))
+            .enumerate()
+            .map(|(i, s)| {
+                // A plain clone copies the proposal's generator state. Every chain after the
+                // first gets a freshly seeded copy, otherwise all chains would receive the
+                // same proposal noise.
+                let chain_proposal = if i == 0 {
+                    proposal.clone()
+                } else {
+                    proposal.clone().set_seed(rand::rng().random::<u64>())
+                };
+                MHMarkovChain::new(target.clone(), chain_proposal, s)
+            })
             .collect();
         Self {
             target,
@@ -185,9 +196,15 @@ where
     ```
     */
     pub fn seed(mut self, seed: u64) -> Self {
+        let n_chains = self.chains.len() as u64;
         for (i, chain) in self.chains.iter_mut().enumerate() {
             let chain_seed = seed.wrapping_add(i as u64).wrapping_add(1);
-            chain.rng = SmallRng::seed_from_u64(chain_seed)
+            chain.rng = SmallRng::seed_from_u64(chain_seed);
+            // Each chain's proposal gets its own seed, distinct from every acceptance seed.
+            chain.proposal = chain
+                .proposal
+                .clone()
+                .set_seed(chain_seed.wrapping_add(n_chains));
         }
         self
     }
